@@ -1,5 +1,5 @@
 import YaegiVerif.Proofs.C03Un
-/- C03: shifts of the integer fragment -/
+/- C03: shifts of the integer fragment, both directions -/
 namespace YaegiVerif.Proofs.C03
 open YaegiVerif YaegiVerif.Const
 
@@ -21,12 +21,20 @@ theorem foldShiftY_const (a : Act) (ha : isShift a = true) (nty : Ty) (v : Int) 
     simp [foldShiftY, F0, Expected.C03.facts, Expected.C03.evalFacts, EvalFacts.foldOf, Expected.C03.constOp,
       Expected.C03.folds, hv1, hle, sh]
 
+/-- a value with at least 65 bits is in no integer type -/
+theorem not_repr_of_big (k : IKind) (x : Int) (h : 2 ^ 64 ≤ x.natAbs) : Spec.reprGo k x = false := by
+  cases hr : Spec.reprGo k x with
+  | false => rfl
+  | true =>
+    have := bitLen_of_repr k x hr
+    rw [bitLen_le_iff] at this
+    omega
+
 /-- a left shift by 64 or more that still fits a 64-bit kind shifts zero -/
 theorem shl_big_zero (k : IKind) (v : Int) (n : Nat) (hn : 64 ≤ n) (h : Spec.reprGo k (ishl v n) = true) : v = 0 := by
   have hb : (ishl v n).natAbs < 2 ^ 64 := by
-    rw [reprGo_iff] at h
-    cases k <;> simp only [IKind.minVal, IKind.maxVal, IKind.signed, IKind.bits, if_true, if_false, Bool.false_eq_true] at h <;>
-      omega
+    have := bitLen_of_repr k _ h
+    rwa [bitLen_le_iff] at this
   refine Decidable.byContradiction fun hv => ?_
   have h1 : 1 ≤ v.natAbs := by omega
   have h2 : (ishl v n).natAbs = v.natAbs * 2 ^ n := by
@@ -34,6 +42,51 @@ theorem shl_big_zero (k : IKind) (v : Int) (n : Nat) (hn : 64 ≤ n) (h : Spec.r
   have h3 : 2 ^ 64 ≤ 2 ^ n := Nat.pow_le_pow_right (by decide) hn
   have h4 : 2 ^ n ≤ v.natAbs * 2 ^ n := Nat.le_mul_of_pos_left _ h1
   omega
+
+/-- an arithmetic right shift by 64 or more of a value of at most 64 bits leaves the sign only -/
+theorem shr_big (v : Int) (n : Nat) (hn : 64 ≤ n) (hlo : -(2 ^ 64 : Int) ≤ v) (hhi : v < (2 ^ 64 : Int)) :
+    ishr v n = if v < 0 then -1 else 0 := by
+  have h3 : (2 ^ 64 : Int) ≤ (2 ^ n : Int) := by
+    have : (2 ^ 64 : Nat) ≤ 2 ^ n := Nat.pow_le_pow_right (by decide) hn
+    exact_mod_cast this
+  unfold ishr
+  by_cases hneg : v < 0
+  · rw [if_pos hneg]
+    exact Int.ediv_eq_neg_one_of_neg_of_le hneg (by omega)
+  · rw [if_neg hneg]
+    exact Int.ediv_eq_zero_of_lt (by omega) (by omega)
+
+theorem repr_bounds64 (k : IKind) (v : Int) (h : Spec.reprGo k v = true) : -(2 ^ 64 : Int) ≤ v ∧ v < (2 ^ 64 : Int) := by
+  rw [reprGo_iff] at h
+  cases k <;> simp only [IKind.minVal, IKind.maxVal, IKind.signed, IKind.bits, if_true, if_false, Bool.false_eq_true] at h <;>
+    omega
+
+/-- `constExpr` shifts by `min(count, 512)`: "larger counts give the same result" as far as representability in an
+    integer type goes -/
+theorem repr_sh_clamp (a : Act) (ha : isShift a = true) (k : IKind) (v : Int) (n : Nat) (hv : Spec.reprGo k v = true) :
+    Spec.reprGo k (sh a v (min n 512)) = Spec.reprGo k (sh a v n) := by
+  by_cases hn : n ≤ 512
+  · rw [Nat.min_eq_left hn]
+  · have hn' : 512 ≤ n := by omega
+    rw [Nat.min_eq_right hn']
+    obtain ⟨hlo, hhi⟩ := repr_bounds64 k v hv
+    cases a <;> simp [isShift] at ha
+    · -- shl
+      simp only [sh, beq_self_eq_true, if_true]
+      by_cases hv0 : v = 0
+      · subst hv0; simp [ishl]
+      · have big : ∀ m, 64 ≤ m → Spec.reprGo k (ishl v m) = false := by
+          intro m hm
+          cases hr : Spec.reprGo k (ishl v m) with
+          | false => rfl
+          | true => exact absurd (shl_big_zero k v m hm hr) hv0
+        rw [big 512 (by omega), big n (by omega)]
+    · -- shr
+      have e1 := shr_big v 512 (by omega) hlo hhi
+      have e2 := shr_big v n (by omega) hlo hhi
+      simp only [sh]
+      rw [show ((Act.shr == Act.shl) = false) from rfl]
+      simp only [Bool.false_eq_true, if_false, e1, e2]
 
 theorem foldShiftY_typed (a : Act) (ha : isShift a = true) (k : IKind) (v : Int) (v1 : RV) (c : Int)
     (hv : Spec.reprGo k v = true) (hv1 : vUint v1 = .ok c) (hc0 : 0 ≤ c) (hc : c ≤ 100000)
@@ -78,75 +131,191 @@ theorem uint64Ok_of_repr_nonneg (k : IKind) (c : Int) (h : Spec.reprGo k c = tru
   cases k <;> simp only [IKind.minVal, IKind.maxVal, IKind.signed, IKind.bits, if_true, if_false, Bool.false_eq_true] at h <;>
     omega
 
-/-- the count operand after `check.shift`: a reflect value whose `vUint` is the count -/
-theorem count_operand (c1 : NS) (g1 : Spec.GV) (i1 : Inv c1 g1) (c : Int) (hcnt : Spec.shiftCount g1 = some c) :
-    ∃ c1' : NS, shiftCountY F0 c1 = .ok c1' ∧ vUint c1'.rv = .ok c ∧ 0 ≤ c ∧ c1'.ty.untyped = false := by
-  rcases i1.shape with ⟨kb, q, hkb, rfl, h1ty, h1rv⟩ | ⟨k', q, rfl, h1ty, h1rv, hq⟩
-  · have hnum : Spec.isNumTy (.u kb) = true := by rcases hkb with rfl | rfl <;> rfl
-    simp only [Spec.shiftCount, CV.toInt, hnum, Bool.true_and] at hcnt
-    by_cases hc : (decide (0 ≤ q) && decide (q < 2 ^ 64)) = true
-    · simp only [hc, if_true] at hcnt
-      injection hcnt with hcnt; subst hcnt
-      simp only [Bool.and_eq_true, decide_eq_true_eq] at hc
-      have hr : Spec.reprGo .uint q = true := (repr_uint_iff q).2 hc
-      have hcv := convertUntypedY_int c1 kb q .uint h1ty h1rv hr
-      refine ⟨{ c1 with rv := .r (.i .uint) (.int q), ty := .t (.i .uint), self := false }, ?_, ?_, hc.1, rfl⟩
-      · simp only [shiftCountY, h1ty, Ty.untyped, if_true, hcv, bind_ok]
-      · exact vUint_refl .uint q (uint64Ok_of_repr_nonneg .uint q hr hc.1)
-    · exfalso
-      simp only [Bool.and_eq_true, decide_eq_true_eq] at hc
-      simp at hcnt
-      omega
-  · simp only [Spec.shiftCount] at hcnt
-    by_cases hc : 0 ≤ q
-    · simp only [hc, if_true] at hcnt
-      injection hcnt with hcnt; subst hcnt
-      refine ⟨c1, ?_, ?_, hc, ?_⟩
-      · simp [shiftCountY, h1ty, Ty.untyped, Ty.isInt, Ty.rtype, BT.isInt]
-      · rw [h1rv]; exact vUint_refl k' q (uint64Ok_of_repr_nonneg k' q hq hc)
-      · simp [h1ty, Ty.untyped]
-    · simp [hc] at hcnt
+/-- the count of a shift as the specification reads it off an integer constant -/
+theorem shiftCount_int (g1 : Spec.GV) (c1 : NS) (i1 : Inv c1 g1) :
+    ∃ q, g1.v = .int q ∧
+      (Spec.shiftCount g1 = if 0 ≤ q ∧ (g1.ty.untyped = true → q < 2 ^ 64) then some q else none) := by
+  rcases i1.shape with ⟨kb, q, hkb, rfl, _, _⟩ | ⟨k', q, rfl, _, _, _⟩
+  · refine ⟨q, rfl, ?_⟩
+    have hnum : Spec.isNumTy (.u kb) = true := by rcases hkb with rfl | rfl <;> rfl
+    simp only [Spec.shiftCount, CV.toInt, hnum, Bool.true_and, Ty.untyped, forall_const]
+    by_cases hc : 0 ≤ q ∧ q < 2 ^ 64
+    · simp [hc]
+    · rw [if_neg hc]
+      have : (decide (0 ≤ q) && decide (q < 2 ^ 64)) = false := by
+        simp only [Bool.and_eq_false_iff, decide_eq_false_iff_not]
+        by_cases h0 : 0 ≤ q
+        · exact Or.inr (fun h => hc ⟨h0, h⟩)
+        · exact Or.inl h0
+      simp only [this, Bool.false_eq_true, if_false]
+  · refine ⟨q, rfl, ?_⟩
+    simp only [Spec.shiftCount, Ty.untyped, Bool.false_eq_true, false_implies, and_true]
 
-/-- **shift node** -/
-theorem shiftNode_correct (env : Env) (a : Act) (ha : isShift a = true) (c0 c1 : NS)
-    (g0 g1 gv : Spec.GV) (i0 : Inv c0 g0) (i1 : Inv c1 g1) (hgo : Spec.shiftGo a g0 g1 = .ok gv) :
-    ∃ n, shiftNodeY F0 env none a c0 c1 = .ok n ∧ Inv n gv := by
-  simp only [Spec.shiftGo] at hgo
-  cases hcnt : Spec.shiftCount g1 with
-  | none => simp [hcnt] at hgo
-  | some c =>
-    simp only [hcnt] at hgo
-    by_cases hbig : c > Spec.shiftBound
-    · simp [hbig] at hgo
-    · rw [if_neg hbig] at hgo
-      obtain ⟨c1', hc1, hv1, hc0, hc1u⟩ := count_operand c1 g1 i1 c hcnt
-      have hc100 : c ≤ 100000 := by simp only [Spec.shiftBound] at hbig; omega
-      rcases i0.shape with ⟨ka, v, hka, rfl, h0ty, h0rv⟩ | ⟨k, v, rfl, h0ty, h0rv, hv⟩
-      · -- untyped left operand
-        have hleft : Spec.shiftLeft ⟨.int v, .u ka⟩ = some (v, .u ka) := by
-          rcases hka with rfl | rfl <;> rfl
-        simp only [hleft] at hgo
-        have hfin : Spec.finish (.int (sh a v c.toNat)) (.u ka) = .ok gv := by
-          cases a <;> simp [isShift] at ha <;> simpa [sh] using hgo
-        have hgv := finish_untyped_int _ _ hka gv hfin
-        subst hgv
-        have hl : shiftLeftY c0 = .ok { c0 with rv := .c (.int v) } := by
-          simp [shiftLeftY, h0ty, h0rv, Ty.untyped, CV.toInt]
-        have hf := foldShiftY_const a ha (.u ka) v c1'.rv c hv1 hc0 hc100
-        refine ⟨{ rv := .c (.int (sh a v c.toNat)), ty := .u ka,
-                  inner := ({ c0 with rv := .c (.int v) } : NS).loose || c1'.loose }, ?_, Inv.of_untyped _ _ _ hka rfl rfl⟩
-        simp [shiftNodeY, checkShiftY, hl, hc1, h0ty, Ty.untyped, binTypeY, hf, fixUntypedY]
-      · -- left operand of integer type
-        have hleft : Spec.shiftLeft ⟨.int v, .t (.i k)⟩ = some (v, .t (.i k)) := rfl
-        simp only [hleft] at hgo
-        have hfin : Spec.finish (.int (sh a v c.toNat)) (.t (.i k)) = .ok gv := by
-          cases a <;> simp [isShift] at ha <;> simpa [sh] using hgo
-        obtain ⟨hgv, hr⟩ := finish_typed_int _ _ gv hfin
-        subst hgv
-        have hl : shiftLeftY c0 = .ok c0 := by
-          simp [shiftLeftY, h0ty, h0rv, Ty.untyped, Ty.isInt, Ty.rtype, BT.isInt]
-        have hf := foldShiftY_typed a ha k v c1'.rv c hv hv1 hc0 hc100 hr
-        refine ⟨{ rv := .r (.i k) (.int (sh a v c.toNat)), ty := .t (.i k) }, ?_, Inv.of_typed _ _ _ rfl rfl hr⟩
-        simp [shiftNodeY, checkShiftY, hl, hc1, h0ty, h0rv, Ty.untyped, hf, fixUntypedY]
+/-- `check.shift`, the count: converted to `uint` when untyped, of integer type otherwise, and at most 1074 -/
+def countCheck (c1 : NS) : Res NS :=
+  (shiftCountY F0 c1).bind fun c1' => (vUint c1'.rv).bind fun s => if s > ((1074 : Nat) : Int) then Res.reject else Res.ok c1'
+
+theorem countCheck_rel (c1 : NS) (g1 : Spec.GV) (i1 : Inv c1 g1) (q : Int) (hq : g1.v = .int q) :
+    (¬ (0 ≤ q ∧ q ≤ 1074) → countCheck c1 = .reject) ∧
+    ((0 ≤ q ∧ q ≤ 1074) → ∃ c1' : NS, countCheck c1 = .ok c1' ∧ vUint c1'.rv = .ok q ∧ isConstRV c1'.rv = false ∧
+        (constValueY c1'.rv).toInt = .int q) := by
+  rcases i1.shape with ⟨kb, q', hkb, rfl, h1ty, h1rv⟩ | ⟨k', q', rfl, h1ty, h1rv, hq'⟩ <;>
+    (simp only at hq; injection hq with hq; subst hq)
+  · -- untyped count
+    constructor
+    · intro hn
+      by_cases hr : Spec.reprGo .uint q' = true
+      · have hcv := convertUntypedY_int c1 kb hkb q' .uint h1ty h1rv hr
+        have h64 := (repr_uint_iff q').1 hr
+        have hv := vUint_refl .uint q' (uint64Ok_of_repr_nonneg .uint q' hr h64.1)
+        have hgt : q' > 1074 := by omega
+        simp [countCheck, shiftCountY, h1ty, Ty.untyped, hcv, hv, hgt]
+      · have hr' : Spec.reprGo .uint q' = false := by simpa using hr
+        have hcv := convertUntypedY_int_none c1 kb hkb q' .uint h1ty h1rv hr'
+        simp [countCheck, shiftCountY, h1ty, Ty.untyped, hcv]
+    · intro hc
+      have hr : Spec.reprGo .uint q' = true := (repr_uint_iff q').2 ⟨hc.1, by omega⟩
+      have hcv := convertUntypedY_int c1 kb hkb q' .uint h1ty h1rv hr
+      have hv := vUint_refl .uint q' (uint64Ok_of_repr_nonneg .uint q' hr hc.1)
+      have hle : ¬ (q' > 1074) := by omega
+      refine ⟨{ c1 with rv := .r (.i .uint) (.int q'), ty := .t (.i .uint), self := false, «set» := false }, ?_, hv, rfl, rfl⟩
+      simp [countCheck, shiftCountY, h1ty, Ty.untyped, hcv, hv, hle]
+  · -- typed count
+    constructor
+    · intro hn
+      have hint : c1.ty.isInt = true := by simp [h1ty, Ty.isInt, Ty.rtype, BT.isInt]
+      by_cases h0 : 0 ≤ q'
+      · have hv := vUint_refl k' q' (uint64Ok_of_repr_nonneg k' q' hq' h0)
+        have hgt : q' > 1074 := by omega
+        simp [countCheck, shiftCountY, h1ty, Ty.untyped, Ty.isInt, Ty.rtype, BT.isInt, h1rv, hv, hgt]
+      · -- a negative count of signed type reads as a huge unsigned one
+        obtain ⟨hlo, _⟩ := repr_bounds64 k' q' hq'
+        have hw : wrapK .uint64 q' > 1074 := by
+          simp only [wrapK, IKind.signed, IKind.bits, Bool.false_and, Bool.false_eq_true, if_false]
+          rw [reprGo_iff] at hq'
+          cases k' <;> simp only [IKind.minVal, IKind.maxVal, IKind.signed, IKind.bits, if_true, if_false, Bool.false_eq_true] at hq' <;>
+            omega
+        simp [countCheck, shiftCountY, h1ty, Ty.untyped, Ty.isInt, Ty.rtype, BT.isInt, h1rv, vUint, hw]
+    · intro hc
+      have hint : c1.ty.isInt = true := by simp [h1ty, Ty.isInt, Ty.rtype, BT.isInt]
+      have hv := vUint_refl k' q' (uint64Ok_of_repr_nonneg k' q' hq' hc.1)
+      have hle : ¬ (q' > 1074) := by omega
+      refine ⟨c1, ?_, by rw [h1rv]; exact hv, by simp [h1rv, isConstRV], by simp [h1rv, constValueY, CV.toInt]⟩
+      simp [countCheck, shiftCountY, h1ty, Ty.untyped, Ty.isInt, Ty.rtype, BT.isInt, h1rv, hv, hle]
+
+theorem checkShiftY_eq (c0 c1 : NS) :
+    checkShiftY F0 c0 c1 = (shiftLeftY c0).bind fun c0' => (countCheck c1).bind fun c1' => .ok (c0', c1') := by
+  simp only [checkShiftY, countCheck, F0_chk, Expected.C03.checkFacts]
+  cases shiftLeftY c0 <;> simp only [Res.bind]
+  cases shiftCountY F0 c1 <;> simp only [Res.bind]
+  rename_i a b
+  cases vUint b.rv <;> simp only [Res.bind]
+  split <;> simp only [Res.bind]
+
+theorem shiftGo_of (a : Act) (ha : isShift a = true) (x s : Spec.GV) (c v : Int) (t : Ty)
+    (hc : Spec.shiftCount s = some c) (hb : ¬ (c > Spec.shiftBound)) (hl : Spec.shiftLeft x = some (v, t)) :
+    Spec.shiftGo a x s = Spec.finish (.int (sh a v c.toNat)) t := by
+  cases a <;> simp [isShift] at ha <;> simp [Spec.shiftGo, hc, hb, hl, sh]
+
+/-- **shift node**, both directions -/
+theorem shiftNode_rel (env : Env) (a : Act) (ha : isShift a = true) (c0 c1 : NS)
+    (g0 g1 : Spec.GV) (i0 : Inv c0 g0) (i1 : Inv c1 g1) :
+    Rel (shiftNodeY F0 env none a c0 c1) (Spec.shiftGo a g0 g1) := by
+  obtain ⟨q, hqv, hcnt⟩ := shiftCount_int g1 c1 i1
+  obtain ⟨hbad, hgood⟩ := countCheck_rel c1 g1 i1 q hqv
+  have hsa : isShiftAct a = true := by simpa [isShiftAct, isShift] using ha
+  have hcmp : isCmpAct a = false := by cases a <;> simp [isShift] at ha <;> rfl
+  -- the left operand always passes `check.shift` in the integer fragment
+  have hleft : ∃ c0', shiftLeftY c0 = .ok c0' ∧ c0'.ty = c0.ty ∧ c0'.rv = c0.rv ∧ c0'.loose = c0.loose := by
+    rcases i0.shape with ⟨ka, v, hka, rfl, h0ty, h0rv⟩ | ⟨k, v, rfl, h0ty, h0rv, hv⟩
+    · exact ⟨{ c0 with rv := .c (.int v) }, by simp [shiftLeftY, h0ty, h0rv, Ty.untyped, CV.toInt], rfl, h0rv.symm, rfl⟩
+    · exact ⟨c0, by simp [shiftLeftY, h0ty, h0rv, Ty.untyped, Ty.isInt, Ty.rtype, BT.isInt], rfl, rfl, rfl⟩
+  obtain ⟨c0', hl, hl_ty, hl_rv, hl_loose⟩ := hleft
+  by_cases hc : 0 ≤ q ∧ q ≤ 1074
+  · -- an acceptable count
+    have hgo1 : Spec.shiftCount g1 = some q := by
+      rw [hcnt, if_pos ⟨hc.1, fun _ => by omega⟩]
+    have hbig : ¬ (q > Spec.shiftBound) := by simp only [Spec.shiftBound]; omega
+    have hc100 : q ≤ 100000 := by omega
+    have hc1 : ∃ c1' : NS, countCheck c1 = .ok c1' ∧ vUint c1'.rv = .ok q ∧ isConstRV c1'.rv = false ∧
+        (constValueY c1'.rv).toInt = .int q := by
+      exact hgood hc
+    obtain ⟨c1', hcc, hv1, hnc, hcv1⟩ := hc1
+    have hchk : checkShiftY F0 c0 c1 = .ok (c0', c1') := by
+      rw [checkShiftY_eq, hl]; simp only [bind_ok, hcc]
+    rcases i0.shape with ⟨ka, v, hka, rfl, h0ty, h0rv⟩ | ⟨k, v, rfl, h0ty, h0rv, hv⟩
+    · -- untyped left operand
+      have hleftgo : Spec.shiftLeft ⟨.int v, .u ka⟩ = some (v, .u ka) := by
+        rcases hka with rfl | rfl <;> rfl
+      rw [shiftGo_of a ha _ _ q v _ hgo1 hbig hleftgo, finish_untyped_int_eq _ _ hka]
+      have h0ty' : c0'.ty = .u ka := by rw [hl_ty, h0ty]
+      have h0rv' : c0'.rv = .c (.int v) := by rw [hl_rv, h0rv]
+      have hf := foldShiftY_const a ha (.u ka) v c1'.rv q hv1 hc.1 hc100
+      have hnty : nodeTyY F0 none true c0' c1' = .u ka := by
+        simp [nodeTyY, stayUntypedY, binTypeY, h0ty', Ty.untyped]
+      have hce : constExprY F0 a false c0' c1' = .ok () := by
+        simp [constExprY, h0rv', isConstRV, hsa]
+      have hY : shiftNodeY F0 env none a c0 c1 =
+          if bitLen (sh a v q.toNat) > 512 then .reject
+          else .ok { rv := .c (.int (sh a v q.toNat)), ty := .u ka, inner := c0'.loose || c1'.loose } := by
+        simp only [shiftNodeY, hchk, bind_ok, h0ty', Ty.untyped, Bool.not_true, Bool.false_eq_true, if_false, hnty,
+          F0_chk, Expected.C03.checkFacts, if_true, hce, h0rv', hf, constOverflowY_c]
+        split <;> simp [fixUntypedY, Ty.untyped, isSetRV]
+      rw [hY]
+      by_cases hb : bitLen (sh a v q.toNat) > 512
+      · rw [if_pos hb, if_pos (by simpa [Spec.maxUntypedBits] using hb)]; exact .rej
+      · rw [if_neg hb, if_neg (by simpa [Spec.maxUntypedBits] using hb)]
+        exact .ok _ _ (Inv.of_untyped _ _ _ hka rfl rfl)
+    · -- left operand of integer type
+      have hleftgo : Spec.shiftLeft ⟨.int v, .t (.i k)⟩ = some (v, .t (.i k)) := rfl
+      rw [shiftGo_of a ha _ _ q v _ hgo1 hbig hleftgo, finish_typed_int_eq]
+      have h0ty' : c0'.ty = .t (.i k) := by rw [hl_ty, h0ty]
+      have h0rv' : c0'.rv = .r (.i k) (.int v) := by rw [hl_rv, h0rv]
+      have hrep : ∀ r : Int, representableY F0 (.int r) (.i k) = Spec.reprGo k r := by
+        intro r; simp only [representableY, CV.toInt]; exact reprY_eq_reprGo k r
+      have htok : F0.eval.tokOf a = (match a with | .shl => Tok.shl | .shr => Tok.shr | _ => Tok.other) := by
+        cases a <;> simp [isShift] at ha <;> rfl
+      have hq0 : 0 ≤ q := hc.1
+      have hce : constExprY F0 a false c0' c1' =
+          if Spec.reprGo k (sh a v q.toNat) = true then .ok () else .reject := by
+        have hclamp := repr_sh_clamp a ha k v q.toNat hv
+        have h1 : constExprY F0 a false c0' c1' =
+            if Spec.reprGo k (sh a v (min q.toNat 512)) = true then .ok () else .reject := by
+          have hx : (constValueY c0'.rv).toInt = .int v := by simp [h0rv', constValueY, CV.toInt]
+          have hnc0 : isConstRV c0'.rv = false := by simp [h0rv', isConstRV]
+          cases a <;> simp [isShift] at ha <;>
+            simp [constExprY, isCmpAct, isShiftAct, h0ty', hnc0, Ty.rtype, BT.isInt, hx, hcv1,
+              CV.isIntKind, htok, hv1, cShift, hrep, Expected.C03.checkFacts, sh] <;>
+            (try (split <;> simp_all))
+        rw [h1, hclamp]
+      have hY : shiftNodeY F0 env none a c0 c1 =
+          if Spec.reprGo k (sh a v q.toNat) = true then
+            .ok { rv := .r (.i k) (.int (sh a v q.toNat)), ty := .t (.i k), «set» := true }
+          else .reject := by
+        simp only [shiftNodeY, hchk, bind_ok, h0ty', Ty.untyped, Bool.not_false, if_true,
+          F0_chk, Expected.C03.checkFacts, hce]
+        by_cases hr : Spec.reprGo k (sh a v q.toNat) = true
+        · simp only [if_pos hr, bind_ok, h0rv']
+          rw [foldShiftY_typed a ha k v c1'.rv q hv hv1 hc.1 hc100 hr, bind_ok, constOverflowY_r k _ hr]
+          simp [fixUntypedY, Ty.untyped, isSetRV]
+        · simp only [if_neg hr, bind_reject]
+      rw [hY]
+      by_cases hr : Spec.reprGo k (sh a v q.toNat) = true
+      · rw [if_pos hr, if_pos hr]; exact .ok _ _ (Inv.of_typed _ _ _ rfl rfl hr)
+      · rw [if_neg hr, if_neg hr]; exact .rej
+  · -- the count is refused on both sides
+    have hY : shiftNodeY F0 env none a c0 c1 = .reject := by
+      simp only [shiftNodeY, checkShiftY_eq, hl, bind_ok, hbad hc, bind_reject]
+    have hG : Spec.shiftGo a g0 g1 = .reject := by
+      simp only [Spec.shiftGo, hcnt]
+      by_cases hc2 : 0 ≤ q ∧ (g1.ty.untyped = true → q < 2 ^ 64)
+      · rw [if_pos hc2]
+        have : q > Spec.shiftBound := by
+          simp only [Spec.shiftBound]
+          have : ¬ (q ≤ 1074) := fun h => hc ⟨hc2.1, h⟩
+          omega
+        simp [this]
+      · rw [if_neg hc2]
+    rw [hY, hG]; exact .rej
 
 end YaegiVerif.Proofs.C03
